@@ -13,6 +13,9 @@ Decided, per layer (and therefore for any stack built from these layers):
   R-EXC-ID    the copy helpers pass the very exception object on (parameter, f.exception(), or the exception
               being handled); the sync executor stores fn's result / the exception being handled in the future it
               returns
+              ... and hand it on unchanged (no with_traceback / add_note / attribute store on it; shared with C13)
+  R-FIND      every walk over the retry job list is under the executor lock or over a copy: the finished attempt's
+              job is always found (shared with C05)
 Not decided: equality with a sequential evaluation for arbitrary stacks and scripts; absence of mis-routing
 caused by data races in code that satisfies these rules.
 """
